@@ -249,6 +249,26 @@ Theorem C15_subscription_stale_resolution_refuted_before_fix :
     run current p init (pre ++ LIdleEnter :: mid ++ [LIdleExit]) = None.
 Proof. exact stale_resolution_before_fix. Qed.
 
+(** ONE AWAITING CHAIN PER PROMISE.  A promise carries one result.  In no reachable state do two
+    chain / join goroutines wait for the same promise ([wf_items]: api-fu obtains a fresh promise from
+    the getter for every chain it builds) ... *)
+Theorem C15_one_reader_per_promise : forall p, wf_items p = true -> bfun_ok p ->
+  forall fx tr s c1 c2 j1 j2 v1 v2 q,
+  run fx p init tr = Some s ->
+  st_gor s c1 = GWaiting j1 v1 -> st_gor s c2 = GWaiting j2 v2 ->
+  nth_error (inner_of p c1) j1 = Some q -> nth_error (inner_of p c2) j2 = Some q -> c1 = c2.
+Proof. exact one_reader_per_promise. Qed.
+
+(** ... and the hypothesis cannot be dropped: the seeded change "memoized edge resolver call on the
+    zero-count path" makes totalCount and pageInfo chain onto the SAME promise (items 1 and 2 over
+    promise 0); one chain takes the result, the other waits for ever, the idle handler is blocked in
+    its receive with promise 2 awaited and no forced label enabled. *)
+Theorem C15_deadlock_refuted_when_promise_has_two_chains :
+  exists p tr s, wf_items p = false /\ nodupb (all_inner p) = false /\ bfun_ok p /\
+                 run current p init tr = Some s /\ st_phase s = PTop /\ live p s 2 = true /\
+                 forall l, forced l = true -> step current p s l = None.
+Proof. exact deadlock_when_promise_has_two_chains. Qed.
+
 (** A hand-over in Go that also selects on the request context (the seeded change C15-2, as the
     step relation [step_ctxdrop]): after a cancellation the goroutine may end without handing its
     result over; the request [create 0; idle-enter; cancel; finish 0; arrive 0; exit 0] is then inside
@@ -282,6 +302,8 @@ Print Assumptions C15_no_leak.
 Print Assumptions C15_drains.
 Print Assumptions C15_no_leak_refuted_before_fix.
 Print Assumptions C15_completes_refuted_with_ctx_drop.
+Print Assumptions C15_one_reader_per_promise.
+Print Assumptions C15_deadlock_refuted_when_promise_has_two_chains.
 Print Assumptions C15_subscription_events_isolated.
 Print Assumptions C15_subscription_batch_leak_refuted_before_fix.
 Print Assumptions C15_subscription_stale_resolution_refuted_before_fix.
